@@ -337,3 +337,50 @@ package v2
 //@   loop 1 invariant fresh(peers) && count("Config).String") == 1 && count("WithPayload") == 0 && count("RWMutex).RLock") == 1 && count("RWMutex).RUnlock") == 0
 //@   noeffect Config).String ClusterPeer).Status ClusterPeer).Peers ClusterPeer).Name ClusterMember).Address ClusterMember).Name
 //@   assigns nothing
+
+// ---- C13 / C16: the label filter of GET /alerts sees exactly the alert's labels (name and value, as texts).
+//@ func alertMatchesFilterLabels
+//@   props C13 C16
+//@   requires a != nil
+//@   at call matchFilterLabels assert [the-alert_s-own-labels-and-the-request_s-matchers] arg0 == matchers && (forall k model.LabelName :: (k in arg1) == (k in a.Labels)) && (forall k model.LabelName :: k in a.Labels ==> arg1[k] == a.Labels[k])
+//@   ensures [the-filter_s-verdict] result == ret("matchFilterLabels")
+//@   loop 1 invariant fresh(sms) && (forall k model.LabelName :: k in visited ==> k in sms && sms[k] == a.Labels[k]) && (forall k string :: k in sms ==> k in visited) && a.Labels == pre(a.Labels) && dom(a.Labels) == pre(dom(a.Labels)) && (forall k model.LabelName :: k in visited ==> k in a.Labels)
+//@   noeffect matchFilterLabels
+//@   assigns nothing
+
+// receiver_matchers: an alert passes when the labels of at least one of its receivers satisfy the matchers;
+// receivers without configured labels never count
+//@ func receiversMatchLabels
+//@   props C13
+//@   at call matchFilterLabels assert [this-receiver_s-labels] arg0 == matchers && (receivers[rangeindex1 + 1] in rcvLabels) && arg1 == rcvLabels[receivers[rangeindex1 + 1]]
+//@   ensures [some-receiver-matches] result == (called("matchFilterLabels") && ret("matchFilterLabels"))
+//@   loop 1 earlyexit called("matchFilterLabels") && ret("matchFilterLabels")
+//@   loop 1 invariant rangeindex < len(receivers) && (called("matchFilterLabels") ==> !ret("matchFilterLabels"))
+//@   noeffect matchFilterLabels
+//@   assigns nothing
+
+// ---- C12 / C02: the silence list filter: a silence passes when one of its matcher sets contains every requested
+// matcher with the same name, operator and pattern.
+//@ spec sameOp(t labels.MatchType, p silencepb.Matcher_Type) bool = (t == labels.MatchEqual && p == silencepb.Matcher_EQUAL) || (t == labels.MatchRegexp && p == silencepb.Matcher_REGEXP)
+//@     || (t == labels.MatchNotEqual && p == silencepb.Matcher_NOT_EQUAL) || (t == labels.MatchNotRegexp && p == silencepb.Matcher_NOT_REGEXP)
+//@ spec setHas(ms *silencepb.MatcherSet, m *labels.Matcher) bool = exists j int :: 0 <= j && j < len(ms.Matchers) && ms.Matchers[j].Name == m.Name && sameOp(m.Type, ms.Matchers[j].Type) && ms.Matchers[j].Pattern == m.Value
+//@ func checkMatcherSetMatchesFilterLabels
+//@   props C12 C02
+//@   requires ms != nil
+//@   assumes forall i int :: 0 <= i && i < len(matchers) ==> matchers[i] != nil
+//@   assumes forall j int :: 0 <= j && j < len(ms.Matchers) ==> ms.Matchers[j] != nil
+//@   ensures [every-requested-matcher-is-in-the-set] result == (forall i int :: 0 <= i && i < len(matchers) ==> setHas(ms, matchers[i]))
+//@   loop 1 invariant rangeindex < len(matchers) && (forall i int :: 0 <= i && i <= rangeindex ==> setHas(ms, matchers[i]))
+//@   loop 2 invariant rangeindex < len(ms.Matchers) && !found && rangeindex1 + 1 < len(matchers) && (forall i int :: 0 <= i && i <= rangeindex1 ==> setHas(ms, matchers[i]))
+//@   loop 2 invariant forall j int :: 0 <= j && j <= rangeindex ==> !(ms.Matchers[j].Name == matchers[rangeindex1 + 1].Name && sameOp(matchers[rangeindex1 + 1].Type, ms.Matchers[j].Type) && ms.Matchers[j].Pattern == matchers[rangeindex1 + 1].Value)
+//@   assigns nothing
+
+//@ func CheckSilenceMatchesFilterLabels
+//@   props C12 C02
+//@   requires s != nil
+//@   at call checkMatcherSetMatchesFilterLabels assert [each-set-against-the-request_s-matchers] arg0 == s.MatcherSets[rangeindex1 + 1] && arg1 == matchers
+//@   ensures [some-set-matches] result == (called("checkMatcherSetMatchesFilterLabels") && ret("checkMatcherSetMatchesFilterLabels"))
+//@   loop 1 earlyexit called("checkMatcherSetMatchesFilterLabels") && ret("checkMatcherSetMatchesFilterLabels")
+//@   loop 1 invariant rangeindex < len(s.MatcherSets) && (called("checkMatcherSetMatchesFilterLabels") ==> !ret("checkMatcherSetMatchesFilterLabels"))
+//@   noeffect checkMatcherSetMatchesFilterLabels
+//@   assigns nothing
